@@ -12,6 +12,7 @@ CONSTANTS
   RecheckRef = TRUE
   AtomicFin = TRUE
   RecheckClosed = TRUE
+  ClearDelf = TRUE
   CloseExcl = FALSE
 VIEW TraceView
 POSTCONDITION Report
